@@ -113,6 +113,17 @@ def path_conditions(fn, target) -> List[Tuple[ast.AST, bool]]:
             if isinstance(t, ast.BoolOp) and ((isinstance(t.op, ast.And) and pol) or (isinstance(t.op, ast.Or) and not pol)):
                 for v in t.values:
                     self.append(_literal(v, pol))
+            elif isinstance(t, ast.IfExp) and isinstance(t.orelse, ast.Constant) and t.orelse.value in (False, None) and pol:
+                # (B if A else False) holds  ->  A and B hold
+                self.append(_literal(t.test, True))
+                self.append(_literal(t.body, True))
+            elif isinstance(t, ast.IfExp) and isinstance(t.body, ast.Constant) and t.body.value is True and not pol:
+                # (True if A else C) fails  ->  A and C fail
+                self.append(_literal(t.test, False))
+                self.append(_literal(t.orelse, False))
+            elif isinstance(t, ast.IfExp) and isinstance(t.body, ast.Constant) and t.body.value in (False, None) and pol:
+                self.append(_literal(t.test, False))
+                self.append(_literal(t.orelse, True))
             else:
                 list.append(self, (t, pol))
 
@@ -238,6 +249,49 @@ def range_strength(ev: ConstEval, m, cond, var_expr, lo: int, hi: int) -> Option
     if high_ok:
         return "upper-only"
     return "none"
+
+
+def rejected_in_range(ev: ConstEval, m, cond, var_expr, lo: int, hi: int) -> Optional[List[int]]:
+    """cond: expression that raises when true, over the single integer quantity var_expr.  Values inside lo..hi for which it
+    raises (probes: both ends, their neighbours, 0, +-1 and the neighbours of every constant compared with), or None when the
+    predicate is outside the decidable fragment."""
+    needle = A.norm(var_expr)
+    consts = set()
+    for n in ast.walk(cond):
+        if not isinstance(n, PURE_NODES):
+            return None
+        if isinstance(n, ast.Compare):
+            for e in [n.left] + list(n.comparators):
+                if not mentions(e, var_expr):
+                    try:
+                        v = ev.eval(e, m)
+                    except Unknown:
+                        return None
+                    if isinstance(v, int) and not isinstance(v, bool):
+                        consts.add(v)
+                    elif isinstance(v, (list, tuple, set)):
+                        consts.update(x for x in v if isinstance(x, int))
+                    elif v is not None:
+                        return None
+                elif A.norm(e) != needle:
+                    return None
+    probes = set()
+    for c in consts | {lo, hi, 0}:
+        probes.update((c - 1, c, c + 1))
+    out = []
+    try:
+        for p_ in sorted(probes):
+            if lo <= p_ <= hi:
+                r = _Replace(needle, p_)
+                e = r.visit(copy.deepcopy(cond))
+                ast.fix_missing_locations(e)
+                if r.hits == 0:
+                    return None
+                if bool(ev.eval(e, m)):
+                    out.append(p_)
+    except Unknown:
+        return None
+    return out
 
 
 def combine(strengths: List[str]) -> str:
